@@ -763,7 +763,12 @@ class FPNum:
             while (e < -(e_bias-1)):
                 e += 1 
                 p = p << 1
-            e = 0
+            if (m >= p):
+                # a rounding carry took the number out of the subnormal range:
+                # it is the smallest normal number
+                e = e + e_bias
+            else:
+                e = 0
         else:
             if (e == -(e_bias-1)) and (p > m):
                 # also a subnormal number
